@@ -188,7 +188,7 @@ def public(ctx):
         if n >= 2:
             for measure in ('unit', 'abs', 'inv', 'min', None):
                 np.random.seed(ctx.seed + it)
-                ratio = rng.choice([0.2, 0.5])
+                ratio = rng.choice([0.2, 0.5, 1.0])
                 try:
                     AggOp, centers = agg.lloyd_aggregation(C, ratio=ratio, measure=measure, maxiter=rng.choice([1, 3]))
                 except Exception as e:   # noqa
@@ -205,6 +205,10 @@ def public(ctx):
                             break
                     if len(set(int(c) for c in centers)) != len(centers):
                         ctx.fail('lloyd_aggregation/centres-not-distinct', str(centers), cs)
+                    for k_, c_ in enumerate(centers):
+                        if a[int(c_)] != k_:
+                            ctx.fail('lloyd_aggregation/centre-not-in-its-aggregate', 'centre %d (node %d) lies in aggregate %d' % (k_, int(c_), a[int(c_)]), cs)
+                            break
         # pairwise on an M-matrix built from the graph (symmetric and nonsymmetric)
         if edges:
             for nonsym in (False, True):
@@ -221,6 +225,28 @@ def public(ctx):
                         ctx.fail('pairwise_aggregation/raises', repr(e), cs)
                         continue
                     partition_oracle(ctx, 'pairwise_aggregation', n, T, Cpts, cs, every=True, maxsize=2 ** matchings)
+                    # the same problem with two unknowns per node (BSR input): the aggregates are those of the nodes, every
+                    # unknown of a node goes to the column of its own component (identity blocks), no column is empty
+                    if matchings <= 2 and not nonsym:
+                        Mb = sp.bsr_array(sp.csr_array(sp.kron(M, np.array([[2.0, 1.0], [1.0, 2.0]]))), blocksize=(2, 2))
+                        csb = dict(cs, blocksize=2)
+                        try:
+                            Tb, Cb = agg.pairwise_aggregation(Mb, matchings=matchings, theta=0.0, norm='min')
+                        except Exception as e:   # noqa
+                            ctx.fail('pairwise_aggregation/bsr/raises', repr(e), csb)
+                            continue
+                        Td = sp.csr_array(Tb).toarray()
+                        ctx.count('public:pairwise-bsr')
+                        if Td.shape[0] != 2 * n or Td.shape[1] % 2 or not np.all((Td == 0) | (Td == 1)) or not np.all(Td.sum(1) == 1):
+                            ctx.fail('pairwise_aggregation/bsr/not-a-partition', 'shape %r, row sums %s' % (Td.shape, sorted(set(Td.sum(1).tolist()))), csb)
+                        elif np.any(Td.sum(0) == 0):
+                            ctx.fail('pairwise_aggregation/bsr/empty-aggregate', 'columns %s of the aggregation operator are empty' % np.flatnonzero(Td.sum(0) == 0).tolist(), csb)
+                        else:
+                            colof = Td.argmax(1)
+                            if any(colof[2 * i] % 2 != 0 or colof[2 * i + 1] != colof[2 * i] + 1 for i in range(n)):
+                                ctx.fail('pairwise_aggregation/bsr/not-identity-blocks', 'the two unknowns of a node do not go to the two columns of one aggregate', csb)
+                            elif np.bincount(colof[::2] // 2).max() > 2 ** matchings:
+                                ctx.fail('pairwise_aggregation/bsr/aggregate-too-large', 'an aggregate has %d nodes after %d matchings' % (np.bincount(colof[::2] // 2).max(), matchings), csb)
 
 
 def search(ctx):
